@@ -173,6 +173,75 @@ func inheritedAudit(c *Ctx, o *Obligation, t *Tables, produced map[string]bool, 
 	return AuditEntry{}, false
 }
 
+var closureSuffix = regexp.MustCompile(`(\$\d+)+$`)
+
+// composedAudit: a recursion cycle all of whose members already recurse in audited cycles.
+// Restructuring (a shared helper taking a callback, siblings funnelled through one
+// dispatcher) merges audited cycles of one family into a larger one and adds closures,
+// method-expression thunks and freshly extracted private helpers to it; the recursion is
+// still the audited functions calling each other over the structure the audits describe.
+// Every member that is a declared function of the audited tree must be a member of some
+// audited cycle; closures count as their enclosing function; interface-method thunks and
+// unexported functions that did not exist on the audited tree are read through.
+func composedAudit(c *Ctx, o *Obligation, t *Tables) (string, bool) {
+	if c == nil || o.Rule != "REC.guarded" || !strings.HasPrefix(o.Construct, "unguarded cycle") {
+		return "", false
+	}
+	i := strings.Index(o.Detail, "members: ")
+	if i < 0 {
+		return "", false
+	}
+	audited := map[string]string{} // member -> audited entry key
+	for k, e := range t.Audited {
+		if e.Rule != "REC.guarded" {
+			continue
+		}
+		j := strings.Index(e.Construct, "): ")
+		if j < 0 {
+			continue
+		}
+		for _, nm := range strings.Split(e.Construct[j+3:], " -> ") {
+			if !strings.HasPrefix(nm, "+") {
+				audited[nm] = k
+			}
+		}
+	}
+	used := map[string]bool{}
+	n := 0
+	for _, m := range strings.Split(o.Detail[i+len("members: "):], ", ") {
+		m = closureSuffix.ReplaceAllString(strings.TrimSpace(m), "")
+		if k, ok := audited[m]; ok {
+			used[k] = true
+			n++
+			continue
+		}
+		fn, fd, _ := c.LookupFunc(m)
+		if fn == nil || fd == nil || fd.Body == nil {
+			continue // an interface method / thunk: no body of its own
+		}
+		if _, existed := loadAnchorFPs().Funcs[m]; !existed && !fn.Exported() {
+			continue // extracted on this tree
+		}
+		return "", false
+	}
+	if n == 0 || len(used) == 0 {
+		return "", false
+	}
+	var ks []string
+	for k := range used {
+		e := t.Audited[k]
+		ks = append(ks, e.Func)
+		t.usedAud[k] = true
+	}
+	sort.Strings(ks)
+	return "composed of audited cycles (every member recurses in one of them; merged by restructuring): " + strings.Join(ks, ", ") + " — " + t.Audited[func() string {
+		for k := range used {
+			return k
+		}
+		return ""
+	}()].Reason, true
+}
+
 func classify(prop string, obs []Obligation, t *Tables, c *Ctx) []Obligation {
 	produced := map[string]bool{}
 	for i := range obs {
@@ -194,6 +263,11 @@ func classify(prop string, obs []Obligation, t *Tables, c *Ctx) []Obligation {
 		if e, ok := inheritedAudit(c, o, t, produced, consumed); ok {
 			o.Status = "audited"
 			o.Reason = e.Reason
+			continue
+		}
+		if why, ok := composedAudit(c, o, t); ok {
+			o.Status = "audited"
+			o.Reason = why
 			continue
 		}
 		if e, ok := t.Known[prop+"|"+o.Key()]; ok {
